@@ -209,7 +209,7 @@ func inCands(w *world, got *core.RegionInfo, cands []*entry) int {
 func (w *world) eval(p *probe) (f *failure) {
 	defer func() {
 		if x := recover(); x != nil {
-			f = &failure{Class: "panic:" + p.Kind, What: fmt.Sprintf("pd panicked while answering a %s query: %v", p.Kind, x), Probe: p}
+			f = &failure{Class: "panic:" + p.Kind, What: fmt.Sprintf("pd panicked while answering a %s query: %v", p.Kind, x), Probe: p, Got: tailStack()}
 		}
 	}()
 	w.probes[p.Kind]++
